@@ -49,6 +49,24 @@ def h64(obj) -> int:
     return int.from_bytes(hashlib.blake2b(jkey(obj).encode(), digest_size=8).digest(), "big")
 
 
+def _plain(x):
+    if isinstance(x, bool) or x is None or type(x) in (int, float, str):
+        return x
+    if isinstance(x, int):
+        return int(x)
+    if isinstance(x, float):
+        return float(x)
+    if isinstance(x, str):
+        return str(x)
+    if isinstance(x, (bytes, bytearray)):
+        return bytes(x).hex()
+    if isinstance(x, dict):
+        return {str(k): _plain(v) for k, v in x.items()}
+    if isinstance(x, (list, tuple, set, frozenset)):
+        return [_plain(v) for v in (sorted(x, key=repr) if isinstance(x, (set, frozenset)) else x)]
+    return repr(x)[:300]
+
+
 class Ctx:
     """Per-shard (or per-replay) collector handed to run_shard / run_case."""
 
@@ -92,7 +110,9 @@ class Ctx:
 
     # -- violations ----------------------------------------------------------------------------------------
     def violation(self, case, witness: dict, detail: dict):
-        self.violations.append({"case": case, "witness": witness, "detail": detail})
+        # plain JSON values only: what the library returns may be instances of its own generated types (cstruct integers),
+        # which neither pickle across the worker boundary nor serialise into a replay file
+        self.violations.append({"case": _plain(case), "witness": _plain(witness), "detail": _plain(detail)})
         if not self.collect_all and len(self.violations) >= MAX_VIOL_PER_SHARD:
             raise StopShard()
 
